@@ -58,5 +58,6 @@ def check(ctx, run):
     # ---- R11.4 the tree twin and the byte walker of one operation agree on the steps that decide its result
     editing.r06_9(ctx, run, rule='R11.4/R06.9', which=('bytes', 'tree'))
     c12.tree_twin_guards(ctx, run, 'R11.4/R12.2')
+    c12.tree_twin_counts(ctx, run, 'R11.4/R12.2')
     twin_case_folding(ctx, run, 'R11.4')
     return report.finish(run, level='other', explanation=EXPLANATION, assumptions=["is_jsonb is the library's own representation sniff; text beginning with a space is excluded by the property"])
